@@ -293,6 +293,27 @@ def run(ctx, ck) -> None:
         if isinstance(deco, ast.Call) and world.qualify(cfg, deco.func) == 'dataclasses.dataclass':
             frozen = any(kw.arg == 'frozen' and isinstance(kw.value, ast.Constant) and kw.value.value is True for kw in deco.keywords)
     ck.expect('K5', frozen, state_cls.node, 'ConfigState is @dataclass(frozen=True)', 'ConfigState is not a frozen dataclass: an active configuration could be mutated in place, leaking across blocks and threads')
+    # every field takes part in equality and hashing: the captured state is static jit metadata, two configurations
+    # that differ in any setting must compare unequal or a compiled trace of one is replayed for the other
+    for deco in state_cls.node.decorator_list:
+        if isinstance(deco, ast.Call):
+            for kw in deco.keywords:
+                if kw.arg in ('eq', 'unsafe_hash') and isinstance(kw.value, ast.Constant) and kw.value.value is False and kw.arg == 'eq':
+                    ck.bad('K5', deco, 'ConfigState is declared with eq=False: identity comparison of captured configurations defeats jit caching and comparison semantics', instance='eq')
+    nfields = 0
+    for st in state_cls.node.body:
+        if isinstance(st, ast.AnnAssign):
+            nfields += 1
+            v = st.value
+            excluded = None
+            if isinstance(v, ast.Call) and world.qualify(cfg, v.func) in ('dataclasses.field',):
+                for kw in v.keywords:
+                    if kw.arg in ('compare', 'hash') and isinstance(kw.value, ast.Constant) and kw.value.value is False:
+                        excluded = kw.arg
+            ck.expect('K5', excluded is None, st, f'setting `{ast.unparse(st.target)}` takes part in equality and hashing of the configuration',
+                      f'setting `{ast.unparse(st.target)}` is excluded from {excluded}: two captured configurations that differ only in it compare equal, so a jit cache entry '
+                      'traced for one lazy inverse is replayed for another (the second inverse uses the first one\'s setting)', instance=f'field {ast.unparse(st.target)} compared', nontrivial=False)
+    ck.floor('K5', nfields, 4, 'configuration settings')
     for module in world.modules.values():
         for node in ast.walk(module.tree):
             if isinstance(node, ast.Call) and dotted(node.func) == 'object.__setattr__':
